@@ -1127,8 +1127,16 @@ where
         if SEALED && chunks_rev.next() != Some(Word::one()) {
             return Err(CoderError::Frontend(()));
         }
+        let mut num_written = 0usize;
         for chunk in chunks_rev.rev() {
-            ans.bulk.write(chunk)?
+            if let Err(err) = ans.bulk.write(chunk) {
+                // Undo the partial write so that a failed call leaves `ans` unchanged.
+                for _ in 0..num_written {
+                    core::mem::drop(ans.bulk.read());
+                }
+                return Err(CoderError::Backend(err));
+            }
+            num_written += 1;
         }
 
         Ok(Self { inner: ans })
